@@ -587,6 +587,13 @@ class Ctx:
         with BuildLock():
             ok, facts, out = run_xlate()
         self.facts = facts.get("facts", {})
+        # literals of the source that property monitors need (the property says "the default limit", not which): handed to the
+        # harness from the regenerated facts, so that a re-tuned default is followed instead of reported
+        sp = self.facts.get("searchparams") or {}
+        if str(sp.get("defaultLimit", "")).isdigit():
+            os.environ["VERIF_UNIVERSAL_DEFAULT_LIMIT"] = str(sp["defaultLimit"])
+        else:
+            os.environ.pop("VERIF_UNIVERSAL_DEFAULT_LIMIT", None)
         self.stale_gen = set(facts.get("stale_gen", []))
         self.oblige("translator:run", "translator", ok, out)
         asserts = {a["site"]: a for a in facts.get("assertions", [])}
